@@ -5,7 +5,7 @@ use std::fmt::Write as _;
 
 pub const ALPHABET: &[char] = &[
     'a', 'b', 'c', '0', '1', ' ', '\u{e9}', '\u{3042}', '\u{30ab}', '\u{4e00}', '\u{4e8c}', '\u{ffff}',
-    '\u{10000}', '\u{1f600}', '\u{3000}', 'z',
+    '\u{10000}', '\u{1f600}', '\u{3000}', 'z', '\u{10ffff}',
 ];
 
 #[derive(Clone, Debug)]
@@ -47,6 +47,8 @@ pub struct GenDict {
     pub declared_conn: bool,
     /// the definition files are handed to the builders with CRLF line ends
     pub crlf: bool,
+    /// how matrix.def is written: 0 canonical, 1 blank lines, 2 repeated rows (the last one counts), 3 zero cells omitted, 4 '+' and leading zeros
+    pub mstyle: u8,
 }
 
 pub struct GenOpts {
@@ -94,6 +96,12 @@ pub fn gen_dict(rng: &mut Rng, o: &GenOpts) -> GenDict {
     rng.shuffle(&mut p);
     for n in p.iter().take(ncat) {
         names.push(n.to_string());
+    }
+    // 1 dictionary in 40: 17 to 20 categories (the category set of a character has 18 bits: 19 or more are rejected)
+    if rng.chance(1, 40) {
+        let want = 17 + rng.below(4) as usize;
+        let mut k = 0;
+        while names.len() < want { names.push(format!("C{}", k)); k += 1; }
     }
     if o.force_space && !names.iter().any(|n| n == "SPACE") {
         names.push("SPACE".to_string());
@@ -262,7 +270,7 @@ pub fn gen_dict(rng: &mut Rng, o: &GenOpts) -> GenDict {
             _ => { cats.retain(|c| c.name != "DEFAULT"); } // DEFAULT never defined
         }
     }
-    GenDict { cats, ranges, unk, sys, user, nright, nleft, matrix, space_clean, unk_covered, bigram: None, declared_conn: false, crlf: rng.chance(1, 6) }
+    GenDict { cats, ranges, unk, sys, user, nright, nleft, matrix, space_clean, unk_covered, bigram: None, declared_conn: false, crlf: rng.chance(1, 6), mstyle: if rng.chance(1, 3) { 1 + rng.below(4) as u8 } else { 0 } }
 }
 
 impl GenDict {
@@ -294,10 +302,18 @@ impl GenDict {
     }
     pub fn matrix_def(&self) -> String {
         let mut s = format!("{} {}\n", self.nright, self.nleft);
+        if self.mstyle == 1 { s.push('\n'); }
         for r in 0..self.nright {
             for l in 0..self.nleft {
-                writeln!(s, "{} {} {}", r, l, self.matrix[r][l]).unwrap();
+                let c = self.matrix[r][l];
+                match self.mstyle {
+                    2 if (r + l) % 3 == 0 => { writeln!(s, "{} {} {}", r, l, c.wrapping_add(7)).unwrap(); writeln!(s, "{} {} {}", r, l, c).unwrap(); }
+                    3 if c == 0 => {}
+                    4 => { if c >= 0 { writeln!(s, "+{} {:03} +{}", r, l, c).unwrap(); } else { writeln!(s, "{:02} +{} -{:05}", r, l, -(c as i32)).unwrap(); } }
+                    _ => { writeln!(s, "{} {} {}", r, l, c).unwrap(); }
+                }
             }
+            if self.mstyle == 1 && r % 2 == 0 { s.push('\n'); }
         }
         s
     }
@@ -323,6 +339,57 @@ impl GenDict {
                 None => Ok(d),
             }
         })
+    }
+
+    /// The same dictionary with its connection ids renamed by a mapping as `map_connection_ids_from_iter` takes it
+    /// (`lmap[i]` = the old left id that becomes i + 1): rows, matrix and bigram rows of the renamed dictionary.
+    pub fn renamed(&self, lmap: &[u16], rmap: &[u16]) -> GenDict {
+        let mut newl: Vec<u16> = (0..self.nleft as u16).collect();
+        let mut newr: Vec<u16> = (0..self.nright as u16).collect();
+        for (i, &o) in lmap.iter().enumerate() { newl[o as usize] = (i + 1) as u16; }
+        for (i, &o) in rmap.iter().enumerate() { newr[o as usize] = (i + 1) as u16; }
+        let f = |r: &Row| Row {
+            lid: if (r.lid as usize) < self.nleft { newl[r.lid as usize] } else { r.lid },
+            rid: if (r.rid as usize) < self.nright { newr[r.rid as usize] } else { r.rid },
+            ..r.clone()
+        };
+        let mut g = self.clone();
+        g.sys = self.sys.iter().map(f).collect();
+        g.unk = self.unk.iter().map(f).collect();
+        g.user = self.user.as_ref().map(|u| u.iter().map(f).collect());
+        for r in 0..self.nright { for l in 0..self.nleft { g.matrix[newr[r] as usize][newl[l] as usize] = self.matrix[r][l]; } }
+        if let Some((rt, lt, ct, dual)) = &self.bigram {
+            let perm = |txt: &str, newid: &[u16]| -> String {
+                let lines: Vec<&str> = txt.lines().collect();
+                let mut out = vec![String::new(); lines.len()];
+                for (k, line) in lines.iter().enumerate() {
+                    let rest = line.splitn(2, '\t').nth(1).unwrap_or("");
+                    let j = newid[k + 1] as usize;
+                    out[j - 1] = format!("{}\t{}", j, rest);
+                }
+                out.join("\n") + "\n"
+            };
+            g.bigram = Some((perm(rt, &newr), perm(lt, &newl), ct.clone(), *dual));
+        }
+        g
+    }
+    /// `self` built, then sent through the id mapping; the user lexicon is loaded before or after the mapping
+    pub fn build_mapped(&self, lmap: &[u16], rmap: &[u16], user_after: bool) -> Outcome<vibrato::Dictionary> {
+        let (l, r) = (lmap.to_vec(), rmap.to_vec());
+        if user_after && self.user.is_some() {
+            let mut nouser = self.clone();
+            nouser.user = None;
+            let ucsv = { let t = Self::rows_csv(self.user.as_ref().unwrap()); if self.crlf { t.replace('\n', "\r\n") } else { t } };
+            match nouser.build() {
+                Outcome::Ok(d) => guarded(move || d.map_connection_ids_from_iter(l, r)?.reset_user_lexicon_from_reader(Some(ucsv.as_bytes()))),
+                o => o,
+            }
+        } else {
+            match self.build() {
+                Outcome::Ok(d) => guarded(move || d.map_connection_ids_from_iter(l, r)),
+                o => o,
+            }
+        }
     }
 
     // ---------------------------------------------------------------- Coq terms
